@@ -143,6 +143,9 @@ fn console_vxw_c14() {
             sv(&[("Host", "168.63.129.16"), ("x-empty", ""), ("x-spaces", "a  b \t c"), ("Cookie", "a=1; b=2"), ("Cookie", "c=3"), ("If-None-Match", "\"etag-1\", W/\"etag-2\"")]),
             sv(&[("Host", "168.63.129.16"), ("x-ms-agent-name", "WALinuxAgent"), ("x-ms-cipher-name", "DES_EDE3_CBC"), ("x-ms-guest-agent-public-x509-cert", &"MIIB".repeat(500))]),
             { let mut v = sv(&[("Host", "168.63.129.16")]); v.extend(many.clone()); v },
+            // names that merely LOOK like the three proxy-owned ones (same prefix, extensions, near misses): client headers like any other
+            sv(&[("Host", "168.63.129.16"), ("x-ms-azure-host-session", "abc123"), ("x-ms-azure-host-version", "2"), ("x-ms-azure-host-claims-extra", "e"), ("x-ms-azure-host-dat", "d"),
+                 ("x-ms-azure-hostx", "x"), ("x-ms-azure-host", "bare"), ("X-MS-Azure-Host-Authorization-Id", "i"), ("x-ms-azure-host-datetime", "t")]),
         ];
         for hs in header_sets.iter() {
             for (method, body) in [("GET", ReqBody::None), ("POST", ReqBody::Len(b"<a>1</a>".to_vec())), ("PUT", ReqBody::Chunked(b"chunked body".to_vec(), vec![5]))] {
